@@ -515,8 +515,11 @@ def oracle_all(case, real):
     if got != ref["stock"]:
         out.append(f"result {got!r:.100} differs from the stock unpickler's {ref['stock']!r:.100} on the analysed bytes")
     if real["events"] != ref["stock_events"] or real["sink"] != ref["stock_sink"]:
-        out.append(f"something ran that was not in the analysed bytes: find_class {real['events']} / sink calls "
-                   f"{real['sink']}; the stock unpickler on the analysed bytes: {ref['stock_events']} / {ref['stock_sink']}")
+        extra = real["events"][:len(ref["stock_events"])] != real["events"] or \
+            real["events"] != ref["stock_events"][:len(real["events"])] or real["sink"] > ref["stock_sink"]
+        head = "something ran that was not in the analysed bytes" if extra else "effects differ"
+        out.append(f"{head}: find_class {real['events']} / sink calls {real['sink']}; the stock unpickler on the "
+                   f"analysed bytes: {ref['stock_events']} / {ref['stock_sink']}")
     return out
 
 
